@@ -66,6 +66,10 @@ class Outcome:
         self.notes = []
         self.drift = []
         self._seen_nontrivial = set()
+        # replay mode (./check <ID> --replay <file>): no evidence is written; with a filter only the recorded (clause, case) counts
+        self.replay = os.environ.get("VERIF_REPLAY") == "1"
+        f = os.environ.get("VERIF_REPLAY_FILTER")
+        self.replay_filter = tuple(json.loads(f)) if f else None
 
     # ------------------------------------------------------------- counting
     def add_tlc(self, results):
@@ -102,6 +106,8 @@ class Outcome:
 
     def fail(self, clause, name, replay_obj, origin="det", facts=()):
         """A clause of the property failed on a real-code observation (as decided by TLC)."""
+        if self.replay_filter is not None and (clause, name) != self.replay_filter:
+            return False
         e = self._match_known(clause, name, origin, set(facts))
         if e is not None:
             self.known_hits.setdefault(e["id"], []).append("%s ## %s" % (clause, name))
@@ -111,7 +117,11 @@ class Outcome:
         replay_obj = dict(replay_obj)
         replay_obj["failing_clause"] = clause
         replay_obj["property"] = self.prop
-        write_json(path, replay_obj)
+        replay_obj["case_name"] = name
+        replay_obj["tier"] = tier()
+        replay_obj["seed"] = seed()
+        if not self.replay:
+            write_json(path, replay_obj)
         self.violations.append((clause, name, path))
         return True
 
@@ -139,7 +149,7 @@ class Outcome:
             seen.add(path)
         if len(self.violations) > 25:
             print("... %d more violations (all replay files written)" % (len(self.violations) - 25))
-        if self.violations:
+        if self.violations and not self.replay:
             os.makedirs(os.path.join(REPLAYS, self.prop), exist_ok=True)
             with open(os.path.join(REPLAYS, self.prop, "unlisted.txt"), "w") as f:
                 for clause, name, _ in self.violations:
@@ -159,7 +169,8 @@ class Outcome:
         }
         if trusted:
             ev["coverage"]["trusted_base"] = trusted
-        write_json(os.path.join(EVIDENCE, self.prop + ".json"), ev)
+        if not self.replay:
+            write_json(os.path.join(EVIDENCE, self.prop + ".json"), ev)
         status = "FAIL" if self.violations else "ok"
         print("%s %s tier=%s seed=%d evaluations=%d nontrivial=%d states=%d traces=%d known=%d violations=%d wall=%.1fs" % (
             self.prop, status, tier(), seed(), cov["evaluations"], cov["distinct_nontrivial"], cov["states"],
